@@ -48,7 +48,10 @@ def cpp_specs(ctx, files_quick=7, per_file=80, rand_files_quick=2, rand_per_file
     # KNOWN-FINDING line is printed on every run while the defect persists (and none once it is repaired)
     specs.append({tag: True, 'kind': 'seq', 'wrap': True, 'seed': ctx.seed * 1000 + 999, 'canary': True,
                   'seqs': [['FxO<2>'], ['bytes<5>', 'Fx2*'], ['Dy1', 'u8<>', 'Fx1'], ['u8<>', 'Fx2[2]', 'bytes<...>'],
-                           ['u64<>', 'u8<>', 'u8']]})
+                           ['u64<>', 'u8<>', 'u8'],
+                           # structs that are dynamic only through a nested, non-last dynamic member: their wrappers
+                           # (_WN: fields after it, _WD: elements of an array) are three-level nestings
+                           ['Dy4', 'u8'], ['u8', 'Dy4', 'u16'], ['Dy8', 'Fx2'], ['Dy1', 'u64']]})
     nrf = ctx.pick(rand_files_quick, rand_files_thorough)
     for i in range(nrf):
         seeds = [ctx.seed * 100000 + 7000 + i * rand_per_file + k for k in range(rand_per_file)]
